@@ -11,6 +11,6 @@ def one(d):
     return m["id"], p.returncode
 ids = sys.argv[1:]
 dirs = [d for d in sorted(glob.glob("/verif/seeded/*")) if os.path.isdir(d) and os.path.basename(d).startswith("C") and (not ids or os.path.basename(d) in ids or any(os.path.basename(d).startswith(i) for i in ids))]
-with concurrent.futures.ThreadPoolExecutor(max_workers=3) as ex:
+with concurrent.futures.ThreadPoolExecutor(max_workers=int(os.environ.get("SEED_WORKERS", "3"))) as ex:
     for sid, rc in ex.map(one, dirs):
         print(sid, "check_exit=%s" % rc, flush=True)
